@@ -21,8 +21,9 @@ Families
             without them and the principal sub-matrix of the covariance matrix.
   malformed indefinite / zero / negative variance, dim != number of observations (coordinates,
             vectors), too few / too many elements, band >= dim: every algorithm must reject.
-  malformed_dim_obs   (known finding F9, include_f9) dim != number of observations inside <obs> and
-            <height-differences>: not checked by GKFparser::finish_obs / finish_hdiffs.
+  malformed_dim_obs   (finding F9 = C10-covmat-dim-check, FIXED in /repo 410fb36; include_f9: now a regression family) dim !=
+            number of observations inside <obs> and <height-differences>: GKFparser::finish_obs / finish_hdiffs must reject
+            (guard regenerated into Gen/HomogenizationSites: dimGuardObs / dimGuardHdiffs, theorem C10_dim_guard_site).
   ysign     inconsistent systems (axes-xy x angles of opposite handedness: gama-local mirrors y internally,
             LocalNetwork::change_y_signs_for_inconsistent_system_) x <vectors> clusters with >= 2 vectors /
             <coordinates> clusters with >= 2 points x FULL (or band >= 3) covariance matrices with non-zero
@@ -31,7 +32,9 @@ Families
             observations are linear, must reproduce the exact rational generalised least squares solution with
             W = C^-1 (normal equations solved in Fractions).
   tiny      (include_tiny) valid clusters whose cofactors  cov / sigma-apr^2  are below the ABSOLUTE
-            tolerance 1e-14 of BlockDiagonal::cholDec; Homogenization::run ignores its return value.
+            tolerance 1e-14 of BlockDiagonal::cholDec; Homogenization::run throws NonPositiveDefinite on its non-zero
+            return value (since /repo 7e9fd7d), so --algorithm envelope REFUSES these valid inputs: finding C10-TINY (known,
+            status known in known_findings.jsonl; theorems C10_tiny_gap, C10_acceptance_tests_agree_iff in Props/C10Accept.lean).
 
 Only the standard library; all randomness comes from ctx.rng; payloads carry the gkf texts.
 """
@@ -667,7 +670,7 @@ def gen_malformed(rng, kind):
 
 
 def gen_malformed_dim_obs(rng, kind):
-    """known finding F9: dim of cov-mat differs from the number of observations in <obs> / <height-differences>"""
+    """finding F9 (fixed, 410fb36; regression family): dim of cov-mat differs from the number of observations in <obs> / <height-differences>"""
     net, cl, n, sc = _malformed_net(rng, kind)
     base = net["clusters"]
     variants = []
